@@ -246,6 +246,9 @@ func runRetry(sc *RetryScenario) *RetryResult {
 				rec.Emit(netsim.Event{"e": "Call", "c": 0, "kind": "Connect"})
 				_, connErr = cli.Connect(connCtx, "verif-client", copts...)
 				rec.Emit(netsim.Event{"e": "Ret", "c": 0, "kind": "Connect", "res": netsim.ErrClass(connErr)})
+				// applications typically scope Connect's context (WithTimeout + defer cancel): once the first
+				// connection is established the client must not depend on it any more
+				connCancel()
 			}()
 		})
 	}
